@@ -303,6 +303,16 @@ def check(ctx):
                     continue
                 if stl:
                     stales.append(stl)
+                # the row as a Python scalar / through a view of the filled rows: float(LOG.Y[:n, 0][i]) is LOG.Y[i]
+                while isinstance(dv, ast.Call) and call_name(dv) in ("float", "int", "np.float64") and len(dv.args) == 1:
+                    dv = strip_copy(dv.args[0])
+                if isinstance(dv, ast.Subscript) and isinstance(dv.slice, ast.Name) and isinstance(dv.value, ast.Subscript) and canon(dv.value.value) in ("LOG.Y", "LOG.X"):
+                    isl = dv.value.slice
+                    rows = isl.elts[0] if isinstance(isl, ast.Tuple) and len(isl.elts) == 2 and const_num(isl.elts[1]) == 0 and canon(dv.value.value) == "LOG.Y" else isl
+                    if isinstance(rows, ast.Slice) and rows.lower is None and rows.step is None:
+                        dv = ast.Subscript(value=dv.value.value, slice=dv.slice, ctx=ast.Load())
+                if isinstance(dv, ast.Subscript) and isinstance(dv.slice, ast.Tuple) and len(dv.slice.elts) == 2 and const_num(dv.slice.elts[1]) == 0 and canon(dv.value) == "LOG.Y":
+                    dv = ast.Subscript(value=dv.value, slice=dv.slice.elts[0], ctx=ast.Load())
                 cv = canon(dv)
                 if a == "u" and cv == f"LOG.X[{idx}]":
                     usesX.append(s)
@@ -317,6 +327,8 @@ def check(ctx):
         for name, src, dstmt in stales:
             ctx.fail(mesh, dstmt, f"the local '{name}' is bound to the log array {src} before evaluations that can re-bind that array (the cache grows by re-allocation): the later read sees the stale, shorter array and ignores the points logged after the growth", construct=f"stale alias {name} = {src} across evaluations")
         ok_arg = False
+        if isinstance(arg, ast.Subscript) and canon(arg.value) == "LOG.Y" and isinstance(arg.slice, ast.Tuple) and len(arg.slice.elts) == 2 and const_num(arg.slice.elts[1]) == 0 and isinstance(arg.slice.elts[0], ast.Slice):
+            arg = ast.Subscript(value=arg.value, slice=arg.slice.elts[0], ctx=ast.Load())  # column 0 of the one-column value table
         if isinstance(arg, ast.Subscript) and canon(arg.value) == "LOG.Y" and isinstance(arg.slice, ast.Slice) and arg.slice.lower is None and _upper_canon(prog, mesh, arg.slice.upper, st) in ("(1 + LOG.Xn)", "(1 + LOG.X_max_idx)"):
             ok_arg = call_name(am) in ("np.argmin", "np.nanargmin")
         elif canon(arg) == "LOG.Y" and call_name(am) == "np.nanargmin":
